@@ -90,6 +90,11 @@ class Arrangement:
                 for tok in r["branches"].split(";"):
                     lab, p, q = tok.split(":")
                     self.branches.append((dec(lab), parse_pt(p), parse_pt(q)))
+            self.xy = []  # (point, class, [pieces through], ending piece or None)
+            if r.get("xy"):
+                for tok in r["xy"].split(";"):
+                    pp, c, thr, ending = tok.split(":")
+                    self.xy.append((parse_pt(pp), c, [int(i) for i in thr.split(",")], None if ending == "-" else int(ending)))
             self.pieces = parse_lines(r.get("pieces", ""))
             self.source = [int(x) for x in r["source"].split(",")] if r.get("source") else []
 
